@@ -48,6 +48,12 @@ QueryVerdict(ev) ==
                  \o (IF op.q = "Score" THEN "score " \o TenthStr(r1.sc) ELSE "no error")
      ELSE IF Has(ev, "twin") /\ ~Invalid(o) /\ ev.twin # r1
           THEN "history:" \o op.q \o " via " \o op.via \o " differs from the same query on a freshly decoded twin (fields " \o sn.f \o ")"
+     \* diagnostics last, so that they never mask a violation
+     ELSE IF op.q \in {"Encode", "String"} /\ SnapOk(sn) /\ r1.str # EncodeText(o)
+          THEN "drift:" \o op.q \o " via " \o op.via \o " returns '" \o r1.str \o "', the implementation-shaped model says '" \o EncodeText(o) \o "'"
+     ELSE IF op.q \in {"GetError", "Encode"} /\ SnapOk(sn) /\ (\A n \in DOMAIN o.f : o.f[n] = UnknownCode \/ o.f[n] \in CodesOf(o.fam, n))
+             /\ r1.sent # (IF ErrorKind(o, op.q) = "" THEN <<>> ELSE <<ErrorKind(o, op.q)>>)
+          THEN "drift:" \o op.q \o " via " \o op.via \o " reports " \o ToString(r1.sent) \o ", the implementation-shaped model says '" \o ErrorKind(o, op.q) \o "'"
      ELSE "ok"
 
 DecodeVerdict(ev) ==
